@@ -100,6 +100,17 @@ def generate(ctx):
     r = ctx.rng
     ds = common.docs(ctx, ctx.scale(500, 20000), finite=False)
     ctx.trip = []
+    # branches of compare reached only by text that does not parse (line coverage of /repo under the harness showed them
+    # unexercised): an invalid text sorts below every document, two invalid texts compare bytewise; tie only
+    bad = [b'nul', b'[1,', b'{"a"}', b'tru e', b'@', b'1 2', b'']
+    good = [gen.enc(ds[0]), gen.json_text(ds[1]) if gen.is_finite(ds[1]) else b'[1]', b'7', gen.enc(('a', []))]
+    for x in bad:
+        for y in bad + good:
+            if not x and not y:
+                continue
+            for l, rr in ((x, y), (y, x)):
+                if l and rr:
+                    ctx.add('compare %s %s' % (gen.hexarg(l), gen.hexarg(rr)), kind='invalid-text')
     for a in ds:
         b = mutate(ctx, a)
         c = mutate(ctx, b) if r.random() < 0.6 else r.choice(ds)
